@@ -197,10 +197,11 @@ def Args.outs (a : Args P) : P → Prop := fun o => a.out1 = some o ∨ a.out2 =
     *shared* zone file `cache` over the common reference `ref` (the documented decoy-ranking loop).
     Side conditions: structures are inputs (nobody writes them); `mkstemp` gives every call a name that is new
     (absent, different from everybody else's, not an input, not the cache); requested outputs are not inputs, not the
-    cache, not a temp name; a zone that is written can be read back (`parse ∘ render = id`, C09). -/
+    cache, not a temp name; the zone that is computed and written can be read back (`read_zone (write_zone z) = z` for the zones of
+    this reference: C09 `read_write_zone`; false only for the chain identifier `-`, finding C09-F4). -/
 structure SharedZoneRun (W : Work L Z R) (fs₀ : FS P L) (isInput : P → Prop) (ref cache : P) (zr : Routine)
     (calls : List (Routine × Args P)) : Prop where
-  roundtrip : ∀ z, W.parse (W.render z) = .ok z
+  roundtrip : ∀ rc, W.parse (W.render (W.compute zr rc)) = .ok (W.compute zr rc)
   cache_not_input : ¬ isInput cache
   inputs : ∀ c ∈ calls, isInput c.2.decoy ∧ isInput c.2.ref
   zone : ∀ c ∈ calls, c.2.zone = none ∨ (c.2.zone = some cache ∧ zoneRoutine c.1 = some zr ∧ c.2.ref = ref)
